@@ -2,8 +2,8 @@
 
 Real code: lena.core.LenaSequence._set_context/_get_context (Sequence, Source), LenaSplit._set_context/
 _get_context, lena.meta.SetContext / StoreContext / UpdateContextFromStatic, lena.output.MakeFilename, Write,
-lena.flow.Cache.  Model: lean/LenaModel/Model/C13.lean (small heap, multi-pass protocol), theorems
-lean/LenaModel/Props/C13.lean.
+lena.flow.Cache.  Model: lean/LenaModel/Model/C13.lean (multi-pass protocol on values), theorems
+lean/LenaModel/Props/C13.lean (lemmas in lean/LenaModel/Lemmas/C13Dict.lean, C13Pass.lean).
 
 A case is {"tree": T, "flow": [ctx, ...], "variants": [T', ...]}:
   T  ::= {"k":"seq","kind":"Sequence"|"Source"|"tuple","c":[T...]} | {"k":"split","c":[T(seq)...]} | leaf
@@ -25,11 +25,78 @@ from harness.common import exc_name
 PID = "C13"
 TITLE = "Static context seen by an element depends only on what encloses and precedes it"
 LEAN_MODULES = ["LenaModel.Props.C13"]
-LEAN_SOURCES = ["LenaModel/Model/C13.lean", "LenaModel/Props/C13.lean"]
+LEAN_SOURCES = ["LenaModel/Model/Val.lean", "LenaModel/Model/C13.lean", "LenaModel/Lemmas/C13Dict.lean",
+                "LenaModel/Lemmas/C13Pass.lean", "LenaModel/Props/C13.lean"]
 DRIVER = "drivers/C13.lean"
 THEOREMS = [
+    "Lena.C13.build_eq_final",
+    "Lena.C13.seen_is_prefix_fold_node",
+    "Lena.C13.seen_is_prefix_fold",
+    "Lena.C13.leafFinal_is_setCtx",
+    "Lena.C13.causality",
+    "Lena.C13.causality_later",
+    "Lena.C13.causality_sibling",
+    "Lena.C13.get_context_is_fold",
+    "Lena.C13.get_context_at",
+    "Lena.C13.ctxAt_split",
+    "Lena.C13.split_exports_intersection",
+    "Lena.C13.interN_is_meet",
+    "Lena.C13.unresolved_key_surfaces",
+    "Lena.C13.getRec_error_mem",
+    "Lena.C13.no_leak",
+    "Lena.C13.no_leak_without_consumer",
+    "Lena.C13.skip_sound",
+    "Lena.C13.no_stale_error",
+    "Lena.C13.fold_mono",
+    "Lena.C13.setCtx_final",
+    "Lena.C13.loop_final",
 ]
 CASE_TIMEOUT = 20
+TRUSTED = [
+    "Lean 4.33.0 kernel; axioms limited to propext, Classical.choice, Quot.sound (audited by #print axioms on every run)",
+    "hand transcription of LenaSequence.__init__/_set_context/_get_context, LenaSplit._set_context/_get_context, "
+    "Source.__init__, SetContext, StoreContext, UpdateContextFromStatic, the _set_context of MakeFilename/Write/Cache, "
+    "MakeFilename.__call__, Sequence.run/Split.run(bufsize=None) and of update_recursively, intersection(level=-1), "
+    "str_to_dict, get_recursively, format_context (parsed templates) into LenaModel/Model/C13.lean, validated by this "
+    "correspondence check (state of every object after construction, exported contexts, LenaKeyError keys, run-time flow)",
+    "the harness's independent Python prefix fold (Ref), compared with the model's specification fold on every case",
+    "JSON line protocol encoders (harness/props/c13.py, drivers/C13.lean); slot-vector encoding of dictionaries over the "
+    "case's key alphabet",
+]
+ASSUMPTIONS = [
+    "locality of mutation: no element mutates a context it was given (SetContext, StoreContext, LenaSplit deep-copy; "
+    "_get_context returns deep copies; UpdateContextFromStatic.run and MakeFilename.__call__ copy what they stored), so a "
+    "value model is adequate; the harness reads all objects after the whole construction, so an in-place update by a "
+    "later element shows up as a wrong value",
+    "context leaves are ints and strings; rendering a dictionary with str() (a formatting field that names a "
+    "sub-dictionary) is outside the model (poison leaf `bad`) and is never generated",
+    "templates are well-formed double-brace templates, given to the model parsed (the scanner of format_context is C08's)",
+    "Split is built with bufsize=None (the whole flow is one buffer), Cache with recompute=True and at most one Cache in a "
+    "tree whose flow is run (an existing cache file would replace the flow: C18), flow data are ints (Write passes them on)",
+]
+RULE = ("quick: all trees with <= 2 leaves over 9 leaf kinds (SetContext constant / formatting / nested key, StoreContext, "
+        "UpdateContextFromStatic, MakeFilename, Write, Cache, plain element), depth <= 2, Sequence and Source tops; a seeded "
+        "sample of 9000 of the trees with 3 leaves over 7 leaf kinds; 4000 seeded random trees of depth <= 3 (Sequence / "
+        "Source / tuple branches, 0-3 Split branches, 6 keys, 7 formatting fields incl. unresolvable ones) each with two "
+        "causality variants (everything after a probe / sibling branches replaced) and a run-time flow out of 5.  thorough: "
+        "all trees with <= 3 leaves over the 9 leaf kinds, all trees with 4 leaves over 4 core leaf kinds, 100 000 random "
+        "trees.  Non-trivial: some element saw a non-empty context or "
+        "derived a formatted name.")
+LEVEL_TEXT = ("Lean 4 theorems about a transcribed model of the multi-pass static-context protocol (bottom-up construction, "
+              "_set_context({}) in every constructor, re-propagation by enclosing sequences, skip-while-empty, stale "
+              "_static_context, the two LenaKeyError exits) for ALL trees of Sequence/Source/Split of any depth and size: the "
+              "constructed state equals a closed form defined from the single top-down prefix fold (build_eq_final), whence "
+              "seen = prefix fold at every position, causality (state at a position is a function of its cone), Split "
+              "exports the intersection, unresolved keys surface with their key, and run-time flow = reference flow in which "
+              "static context enters only through UpdateContextFromStatic / the name of MakeFilename.  Tied to /repo by a "
+              "correspondence check on every object of every generated tree, plus an oracle that evaluates the property with "
+              "an independent Python prefix fold and pairwise causality comparison of trees sharing a cone.")
+LEVEL_NOTE = ("Trusted: Lean kernel (+ propext, Classical.choice, Quot.sound), the hand transcription validated by the "
+              "correspondence run, value semantics of contexts (locality of mutation), dictionary rendering and template "
+              "scanning outside the model, the JSON protocol.")
+TECHNIQUE = ("Lean 4 proof over hand-written model (closed form of a multi-pass protocol via a monotonicity lemma) + "
+             "correspondence check (exhaustive small scopes, seeded random trees) + independent reference-fold oracle")
+DESIGN_REF = "DESIGN.md section 3, C13"
 
 # ------------------------------------------------------------------------------------------------
 # templates: "lit{{path}}lit..." -> [lit, path, lit, path, ..., lit]  (odd positions are fields)
@@ -879,15 +946,25 @@ def exhaustive_cases(nmax, depth, leaves, source=False):
                     yield {"tree": t, "flow": _flow_for(t, [])}
 
 
+EX_LEAVES_CORE = [EX_LEAVES[0], EX_LEAVES[1], EX_LEAVES[3], EX_LEAVES[4]]   # set a, set b={{a}}_f, store, ucfs
+
+
 def gen_cases(ctx):
+    """quick: every tree with <= 2 leaves over the 9-leaf alphabet and a seeded sample of the trees with 3 leaves over
+    the 7-leaf alphabet (depth <= 2, Sequence and Source tops), 4000 random trees of depth <= 3 with causality
+    variants.  thorough: all trees with <= 3 leaves over the 9-leaf alphabet, all trees with 4 leaves over the 4 core
+    leaves, 100 000 random trees."""
     rng = ctx.rng
     cases = []
     if ctx.tier == "quick":
-        cases.extend(exhaustive_cases(3, 2, EX_LEAVES, source=True))
+        cases.extend(exhaustive_cases(2, 2, EX_LEAVES + EX_LEAVES_MORE, source=True))
+        three = [c for c in exhaustive_cases(3, 2, EX_LEAVES, source=True)]
+        cases.extend(rng.sample(three, min(len(three), 9000)))
         n_rand = 4000
     else:
-        cases.extend(exhaustive_cases(4, 2, EX_LEAVES, source=True))
-        cases.extend(exhaustive_cases(2, 2, EX_LEAVES + EX_LEAVES_MORE, source=True))
+        cases.extend(exhaustive_cases(3, 2, EX_LEAVES + EX_LEAVES_MORE, source=True))
+        cases.extend(c for c in exhaustive_cases(4, 2, EX_LEAVES_CORE, source=True)
+                     if len(preorder(c["tree"])) > 1 + 3 + (c["tree"]["kind"] == "Source"))
         n_rand = 100000
     for i in range(n_rand):
         pformat = (0.0, 0.3, 0.6)[i % 3]
